@@ -476,6 +476,13 @@ def rate_cases(draw, cls=None, cstr=False, max_subs=8, max_rxns=8, subs_kinds=No
     # the optional `variables` argument of the array form (law_of_mass_action_rates): omitted, {}, unrelated keys only,
     # or a whole state dict that also holds substance keys (with other values than the concentration vector)
     case["vmode"] = pick(draw, VMODES)
+    # explicit `substance_keys` requests that are proper subsets of the substances, in drawn order: a single key, an
+    # arbitrary subset, and one made only of substances no reaction touches (if there are any, else arbitrary)
+    subs = list(sysd["subs"])
+    touched = set(k for r in sysd["rxns"] for k in rxn_keys(r))
+    idle = [k for k in subs if k not in touched]
+    case["subsets"] = [pick_distinct(draw, subs, 1, 1), pick_distinct(draw, subs, 1, len(subs)),
+                       pick_distinct(draw, idle or subs, 1, len(idle or subs))]
     return case
 
 
